@@ -765,6 +765,7 @@ pub fn main() -> i32 {
         Some("check") if args.len() >= 4 => check(&args[2], &args[3]),
         Some("worker") => worker(&args[2..]),
         Some("replay") if args.len() >= 3 => replay(&args[2]),
+        Some("confirm") if args.len() >= 3 => crate::confirm::main(&args[2]),
         Some("selftest-determinism") => selftest_determinism(&args[2..]),
         Some("fingerprints") => fingerprints(&args[2..]),
         Some("one") => {
